@@ -334,6 +334,10 @@ func gen(g *lp.Gen) {
 			genBody(g)
 			continue
 		}
+		if g.Chance(1, 8) {
+			genConn(g)
+			continue
+		}
 		genResp(g, tr, lg)
 	}
 }
